@@ -28,7 +28,7 @@ var (
 	methodsAll   = []string{"GET", "POST", "PUT", "DELETE", "PATCH", "HEAD", "OPTIONS"}
 	methodsDflt  = []string{"GET", "POST", "PUT", "DELETE", "PATCH"}
 	hostLabels   = []string{"api", "a", "com", "x1", "org", "svc-1"}
-	hostNasty    = []string{"{sub}", "*", "a+b", "API", "com:8080", "[ab]", "x(1)", "{p}"}
+	hostNasty    = []string{"{sub}", "*", "a+b", "API", "com:8080", "[ab]", "x(1)", "{p}", "{a.b}", "x*", "{}"}
 	segPlain     = []string{"a", "b", "v1", "users", "posts", "7", "x-y_z", "v1.0", "a.b", ".well-known"}
 	segParam     = []string{"{id}", "{user_id}", "{a-b}", "{X9}", "{p}", "{q}"}
 	segOddParam  = []string{"{user.id}", "{id:int}", "{}", "{2}", "{a b}", "{id}x", "x{id}", "{{id}}", "{id}}", "{i/d}"}
@@ -128,7 +128,15 @@ func pickKind(r *prng.R) patKind {
 // derive: a pattern overlapping with p
 func derive(r *prng.R, p string, k patKind) string {
 	parts := strings.Split(p, "/")
-	switch r.Intn(7) {
+	switch r.Intn(8) {
+	case 7:
+		// the host/path boundary moved: same trie keys, other side of the first '/'
+		if i := strings.Index(p, "/"); i >= 0 && r.Bool() {
+			return p[:i] + "." + p[i+1:]
+		}
+		if i := strings.LastIndex(strings.SplitN(p, "/", 2)[0], "."); i >= 0 {
+			return p[:i] + "/" + p[i+1:]
+		}
 	case 0:
 		return p + "/" + genSeg(r, k)
 	case 1:
@@ -234,6 +242,15 @@ func mutateURL(r *prng.R, u string) string {
 		return strings.Join(parts, "/")
 	case 13:
 		return "." + u
+	case 14:
+		// the host/path boundary moved
+		if i := strings.Index(u, "/"); i >= 0 {
+			return u[:i] + "." + u[i+1:]
+		}
+	case 15:
+		if i := strings.LastIndex(parts[0], "."); i >= 0 {
+			return u[:i] + "/" + u[i+1:]
+		}
 	}
 	return u
 }
@@ -355,7 +372,7 @@ func genPolicyCase(r *prng.R) []string {
 	return append(ops, genReqs(r, pats, methods, r.Range(6, 14))...)
 }
 
-var fmtTokens = []string{"/", "{", "}", "a", "-", "_", ".", "*", "/*", "/{id}", "{a}", "//", "/{", "}/", "\\", "$",
+var fmtTokens = []string{".*", "{sub}.", ".{p}", "*", "/", "{", "}", "a", "-", "_", ".", "*", "/*", "/{id}", "{a}", "//", "/{", "}/", "\\", "$",
 	"(/.*)?", "[^/]+", "/{a.b}", "/{}", "9", "Z", "/{a-b_C9}", "api.com", "+", "/{id", "id}", "/*/"}
 
 func genFmtCase(r *prng.R) []string {
@@ -378,7 +395,7 @@ func genFmtCase(r *prng.R) []string {
 
 const reAlphabet = "ab/.:*+?()|[]^$\\{},-12c"
 
-var reAtoms = []string{"a", "b", "c", "/", ":", "\\.", "\\+", "\\\\", ".", "[ab]", "[^/]", "[a-c]", "[]a]", "[^]]", "[a-]",
+var reAtoms = []string{"[^./]", "[^:]", "(\\..*)", "a", "b", "c", "/", ":", "\\.", "\\+", "\\\\", ".", "[ab]", "[^/]", "[a-c]", "[]a]", "[^]]", "[a-]",
 	"^", "$", "\\$", "\\(", "{", "}", "]", "[a\\]]", "[\\^a]", "-", "1"}
 var rePostfix = []string{"*", "+", "?", "{1}", "{2}", "{1,}", "{0,2}", "{2,3}", "*?", "+?", "??", "{3,2}", "**", "{,2}", "{1,2}?"}
 
